@@ -264,8 +264,8 @@ func (w *kqueue) Close() error {
 	// release the watch descriptors here.
 	for _, name := range pathsToRemove {
 		if info, ok := w.watches.byPath(name); ok {
-			unix.Close(info.wd)
 			w.watches.remove(info.wd, name)
+			unix.Close(info.wd)
 		}
 	}
 
@@ -318,9 +318,12 @@ func (w *kqueue) remove(name string, unwatchFiles bool) error {
 		return err
 	}
 
-	unix.Close(info.wd)
-
+	// Forget the descriptor before closing it: once it's closed the number can
+	// be handed out again, and a watch added for it by another goroutine in
+	// the meantime must not be wiped out by the removal below.
 	isDir := w.watches.remove(info.wd, name)
+
+	unix.Close(info.wd)
 
 	// Find all watched paths that are in this directory that are not external.
 	if unwatchFiles && isDir {
